@@ -267,37 +267,44 @@ Fixpoint decode (s : schema) (owner : option Z) (dflt : pv) (d : option pv) {str
       end
   end.
 
-(* --- the documented exception: product-level policy node links are cleared -------------------------- *)
-Fixpoint forget (s : schema) (v : val) {struct s} : val :=
+(* --- the documented exceptions ----------------------------------------------------------------------- *)
+Fixpoint assoc {A} (a : string) (l : list (string * A)) : option A :=
+  match l with [] => None | (a', x) :: r => if String.eqb a a' then Some x else assoc a r end.
+Definition val_index (fields : list (string * val)) : option Z :=
+  match assoc index_attr fields with Some (VPlain (PNum q)) => q_to_Z q | _ => None end.
+
+(* [forget s owner v] = v with (1) product-level policy node links cleared (SRefDrop; documented in
+   SupplyChainProduct.from_dict) and (2) a None-valued object attribute of kind NoneDefault (product level
+   demand_source / inventory_policy) replaced by the default object X.from_dict(None) — stockpyl treats "None" and
+   "object whose type is None" alike everywhere it reads these attributes. *)
+Fixpoint forget (s : schema) (owner : option Z) (v : val) {struct s} : val :=
   match s with
   | SRefDrop => match v with VRef _ => VRef None | _ => v end
-  | SObjAttr _ _ c =>
+  | SObjAttr _ nm c =>
       match v with
-      | VObj _ => forget c v
-      | VObjDict l => VObjDict (map (fun ko => (fst ko, forget c (snd ko))) l)
+      | VObj _ => forget c owner v
+      | VObjDict l => VObjDict (map (fun ko => (fst ko, forget c owner (snd ko))) l)
+      | VNoneObj => match nm with NoneDefault => decode c owner PNone None | _ => v end
       | _ => v
       end
-  | SObjList c => match v with VObjList l => VObjList (map (forget c) l) | _ => v end
-  | SClass _ _ attrs =>
+  | SObjList c => match v with VObjList l => VObjList (map (forget c owner) l) | _ => v end
+  | SClass idx _ attrs =>
       match v with
       | VObj fields =>
+          let owner' := if idx then val_index fields else owner in
           VObj ((fix go (al : list (string * (schema * pv))) (fl : list (string * val)) : list (string * val) :=
                    match al, fl with
-                   | (a, (sa, _)) :: al', (_, va) :: fl' => (a, forget sa va) :: go al' fl'
+                   | (a, (sa, _)) :: al', (_, va) :: fl' => (a, forget sa owner' va) :: go al' fl'
                    | _, _ => []
                    end) attrs fields)
       | _ => v
       end
   | _ => v
   end.
-(* structural equality of modelled objects up to the documented exception *)
-Definition equiv (s : schema) (a b : val) : Prop := forget s a = forget s b.
+(* structural equality of modelled objects up to the documented exceptions *)
+Definition equiv (s : schema) (owner : option Z) (a b : val) : Prop := forget s owner a = forget s owner b.
 
 (* --- well-formedness of a schema and of an object w.r.t. a schema ----------------------------------- *)
-Fixpoint assoc {A} (a : string) (l : list (string * A)) : option A :=
-  match l with [] => None | (a', x) :: r => if String.eqb a a' then Some x else assoc a r end.
-Definition val_index (fields : list (string * val)) : option Z :=
-  match assoc index_attr fields with Some (VPlain (PNum q)) => q_to_Z q | _ => None end.
 Definition is_class (s : schema) : Prop := match s with SClass _ _ _ => True | _ => False end.
 Definition is_obj (v : val) : Prop := match v with VObj _ => True | _ => False end.
 Definition attr_keys (strip : bool) (attrs : list (string * (schema * pv))) : list string :=
@@ -328,7 +335,7 @@ Fixpoint conforms (s : schema) (owner : option Z) (v : val) {struct s} : Prop :=
   | SBacklink | SSkip => v = VLink
   | SObjAttr mk nm c =>
       match v with
-      | VNoneObj => nm = NoneKeeps
+      | VNoneObj => nm <> NoneCrash
       | VObj _ => conforms c owner v
       | VObjDict l =>
           mk = MarkerYes /\
